@@ -425,7 +425,7 @@ def bilateral(R=3, C=3, sigma_space=0.7, sigma_color=2.0, cap=120, block=(), val
                       stubs=['np.exp = uninterpreted function with exp(x) > 0'], assumptions=['C10(bilateral): reals-for-floats (no float rounding of the weighted mean)'])
 
 
-def bilateral_blocks(axis=1, N=53, lo=47, hi=53, sigma_space=0.7, sigma_color=2.0, seed=0, cap=120, block=()):
+def bilateral_blocks(axis=1, N=53, lo=47, hi=53, sigma_space=0.7, sigma_color=2.0, seed=0, cap=120, block=(), invalid_upto=0):
     """independence from the internal 50-pixel processing blocks: the filter runs on a map that straddles a block boundary (symbolic
     stripe across it, concrete elsewhere) and on a crop of the same map that fits in one block; interior pixels must agree"""
     import xarray as xr
@@ -442,6 +442,11 @@ def bilateral_blocks(axis=1, N=53, lo=47, hi=53, sigma_space=0.7, sigma_color=2.
     def h():
         d, m, shp, sym = _mk_map(S, EX, R, C, (axis, lo, hi), seed)
         col.shapes = {'d': (shp[0], 'x4'), 'dm': (shp[1], 'u2')}
+        if invalid_upto:        # whole leading processing blocks without any valid pixel
+            if axis == 1:
+                m._a[:, :invalid_upto] = np.uint16(1)
+            else:
+                m._a[:invalid_upto, :] = np.uint16(1)
         # masks of the stripe: concrete too (pseudo-random), only the disparities of the stripe are symbolic
         rng = np.random.RandomState(seed + 1)
         for e_ in m._a.flat:
@@ -449,7 +454,7 @@ def bilateral_blocks(axis=1, N=53, lo=47, hi=53, sigma_space=0.7, sigma_color=2.
                 EX.assume(e_.t == int(rng.choice([0, 0, 0, 64])))
         win = min(R, C, int(3 * sigma_space + 1)); off = int(win / 2)
         a0 = max(0, lo - 3 - off); a1 = min(N, hi + 3 + off)
-        ex = {'filter': 'bilateral_blocks', 'axis': axis, 'N': N, 'lo': lo, 'hi': hi, 'sigma_space': sigma_space, 'sigma_color': sigma_color, 'seed': seed, 'crop': [a0, a1]}
+        ex = {'filter': 'bilateral_blocks', 'axis': axis, 'N': N, 'lo': lo, 'hi': hi, 'sigma_space': sigma_space, 'sigma_color': sigma_color, 'seed': seed, 'crop': [a0, a1], 'invalid_upto': invalid_upto}
 
         def run(dd, mm, shape):
             ds = xr.Dataset({"disparity_map": (["row", "col"], dd), "validity_mask": (["row", "col"], mm)}, coords={"row": np.arange(shape[0]), "col": np.arange(shape[1])})
@@ -475,7 +480,10 @@ def bilateral_blocks(axis=1, N=53, lo=47, hi=53, sigma_space=0.7, sigma_color=2.
                 else:
                     same = bool(x_ == y_ or (x_ != x_ and y_ != y_))
                     props.append(("same-value-as-in-a-single-block-crop[%d,%d]" % pw, z3.BoolVal(same)))
-        col.check_path(props, label='p%d' % len(EX.trace), extra=ex, witnesses=[("reached", z3.BoolVal(True))])
+        rngp = np.random.RandomState(seed + 7)
+        symd = [e_ for e_ in d._a.flat if isinstance(e_, S.Sym)]
+        pins = [z3.And(*[e_.t.val == z3.RealVal(int(rngp.randint(-8, 9))) / 4 for e_ in symd]) for _ in range(2)]
+        col.check_path(props, label='p%d' % len(EX.trace), extra=ex, witnesses=[("pinned-stripe-satisfies-the-path-condition", pins[0])], pins=pins)
         info['fn'] = instr.fn_hash(BF.BilateralFilter.filter_bilateral, BF.BilateralFilter.bilateral_kernel)
     res, stats = explore(h, max_paths=8)
     return col.result(stats, functions=info.get('fn', {}), bounds={'filter': 'bilateral', 'map': [R, C], 'symbolic stripe': [lo, hi], 'axis': axis},
@@ -497,6 +505,11 @@ def replay_bilateral_blocks(cex):
     mv = np.array([int(rng2.choice([0, 0, 0, 64])) for _ in range(sub[0] * sub[1])], np.uint16).reshape(sub)
     if inp.get('dm') is not None:
         mv = np.array(inp['dm'], np.uint16).reshape(sub)
+    if x.get('invalid_upto'):
+        if axis == 1:
+            mb[:, :x['invalid_upto']] = 1
+        else:
+            mb[:x['invalid_upto'], :] = 1
     if axis == 1:
         base[:, lo:hi] = dv; mb[:, lo:hi] = mv
     else:
